@@ -84,6 +84,44 @@ theorem C18_symmetric (a b : Tree) (ha : KeysOK a) (hb : KeysOK b) : isEqual a b
     rw [(C18_iff b a hb ha).mpr this] at h2; cases h2
 
 mutual
+theorem Sim_refl : ∀ (a : Tree), Sim a a
+  | .mk _ n c tl p a e ns cs => by
+    simp only [Sim]
+    exact ⟨trivial, trivial, trivial, trivial, fun _ => rfl, fun _ => rfl, fun _ => rfl, SimL_refl cs⟩
+theorem SimL_refl : ∀ (cs : List Tree), SimL cs cs
+  | [] => by simp [SimL]
+  | c :: cs => by simp only [SimL]; exact ⟨Sim_refl c, SimL_refl cs⟩
+end
+
+mutual
+theorem Sim_trans : ∀ (a b c : Tree), Sim a b → Sim b c → Sim a c
+  | .mk _ n c tl p a e ns cs, .mk _ n' c' tl' p' a' e' ns' cs', .mk _ n'' c'' tl'' p'' a'' e'' ns'' cs'', h, h' => by
+    simp only [Sim] at h h' ⊢
+    obtain ⟨h1, h2, h3, h4, h5, h6, h7, h8⟩ := h
+    obtain ⟨g1, g2, g3, g4, g5, g6, g7, g8⟩ := h'
+    exact ⟨h1.trans g1, h2.trans g2, h3.trans g3, h4.trans g4, fun k => (h5 k).trans (g5 k), fun k => (h6 k).trans (g6 k),
+      fun k => (h7 k).trans (g7 k), SimL_trans cs cs' cs'' h8 g8⟩
+theorem SimL_trans : ∀ (as bs cs : List Tree), SimL as bs → SimL bs cs → SimL as cs
+  | [], [], [], _, _ => by simp [SimL]
+  | [], [], _ :: _, _, h => by simp [SimL] at h
+  | [], _ :: _, _, h, _ => by simp [SimL] at h
+  | _ :: _, [], _, h, _ => by simp [SimL] at h
+  | _ :: _, _ :: _, [], _, h => by simp [SimL] at h
+  | a :: as, b :: bs, c :: cs, h, h' => by
+    simp only [SimL] at h h' ⊢
+    exact ⟨Sim_trans a b c h.1 h'.1, SimL_trans as bs cs h.2 h'.2⟩
+end
+
+/-- a tree compares equal to any distinct object with the same fields (in particular to a reloaded or re-imported twin) -/
+theorem C18_reflexive (a : Tree) (ha : KeysOK a) : isEqual a a = true := (C18_iff a a ha ha).mpr (Sim_refl a)
+
+/-- the comparison is transitive: it is an equivalence on trees (with C18_reflexive and C18_symmetric), so "compares equal"
+    can be chained across copies, reloads and re-imports -/
+theorem C18_transitive (a b c : Tree) (ha : KeysOK a) (hb : KeysOK b) (hc : KeysOK c)
+    (h1 : isEqual a b = true) (h2 : isEqual b c = true) : isEqual a c = true :=
+  (C18_iff a c ha hc).mpr (Sim_trans a b c ((C18_iff a b ha hb).mp h1) ((C18_iff b c hb hc).mp h2))
+
+mutual
 /-- the same tree with other node ids (what `copy` produces, see C12) -/
 def reId (f : String → String) : Tree → Tree
   | .mk i n c tl p a e ns cs => .mk (f i) n c tl p a e ns (reIdL f cs)
